@@ -270,6 +270,16 @@ impl<'a> FragGen<'a> {
     /// small integer expressions (values stay inside the declared index ranges)
     fn ce(&mut self, bound: &[String], d: u32) -> Ce {
         if d == 0 || self.r.chance(1, 2) { return self.leaf(bound); }
+        // now and then at the i64 limits: checked arithmetic is the Overflow error, not a wrapped index
+        if self.r.chance(1, 40) {
+            let l = Box::new(self.leaf(bound));
+            return match self.r.below(4) {
+                0 => Ce::Add(l, Box::new(Ce::Lit(i64::MAX))),
+                1 => Ce::Mul(Box::new(Ce::Lit(i64::MAX / 2 + 1)), Box::new(Ce::Lit(2))),
+                2 => Ce::Sub(Box::new(Ce::Lit(-i64::MAX)), Box::new(Ce::Add(l, Box::new(Ce::Lit(2))))),
+                _ => Ce::Sub(Box::new(Ce::Add(l, Box::new(Ce::Lit(i64::MAX - 1)))), Box::new(Ce::Lit(i64::MAX - 1))),
+            };
+        }
         let a = Box::new(self.leaf(bound));
         match self.r.below(3) { 0 => Ce::Add(a, Box::new(self.leaf(bound))), 1 => Ce::Sub(a, Box::new(self.leaf(bound))), _ => Ce::Mul(a, Box::new(Ce::Lit(self.r.range(0, 2)))) }
     }
